@@ -269,6 +269,23 @@ impl Property for C13 {
                         j.fail("C13-R6", format!("cache-only browse of {} (t={}) but a PTR query for it was sent at t={}{}", w.key, w.open_t, q0.t, if refresh { " (a cache refresh query on behalf of the cache-only browse)" } else { "" }));
                     }
                 }
+                // ... and no follow-up (SRV / TXT / ANY) query for an instance of the type either, while only cache-only
+                // browses of the type are registered
+                {
+                    let suffix = format!(".{}", w.key.to_lowercase());
+                    let regular_open = |step: usize| bw.iter().any(|o| !o.cache_only && (o.key == w.key || o.key.to_lowercase().ends_with(&suffix)) && o.open_step <= step && step <= o.close_step);
+                    j.judgements += 1;
+                    let hit = tr.tx.iter().filter(|x| x.d == d && x.step > w.open_step && x.step <= w.close_step && !regular_open(x.step)).find_map(|x| {
+                        let m = x.msg.as_ref()?;
+                        if m.is_response() {
+                            return None;
+                        }
+                        m.questions.iter().find(|q| matches!(q.ty, wire::T_ANY | wire::T_SRV | wire::T_TXT) && q.name.dotted().to_lowercase().ends_with(&suffix)).map(|q| (x.t, q.name.dotted()))
+                    });
+                    if let Some((t, name)) = hit {
+                        j.fail("C13-R6", format!("cache-only browse of {} (t={}) but a query for its instance {} was sent at t={} (a follow-up or refresh query for an instance on behalf of the cache-only browse)", w.key, w.open_t, name, t));
+                    }
+                }
                 // R5: issued right after a stop with no ingress in between => reports nothing
                 if let Some(prev) = bw.iter().find(|o| !o.cache_only && o.key == w.key && o.closed_by == "stop" && o.close_step <= w.open_step && (o.close_t + 3 >= w.open_t || scn.params.get("forget").is_some())) {
                     let ingress = tr.rx.iter().any(|r| r.d == d && r.step.map(|s| s > prev.close_step && s <= w.open_step).unwrap_or(false) && r.msg.as_ref().map(|m| m.is_response()).unwrap_or(false));
